@@ -13,6 +13,8 @@ mod parse;
 mod per;
 mod proto;
 mod tags;
+#[macro_use]
+mod uper_grid;
 mod uper;
 
 pub type I = i128;
